@@ -3195,9 +3195,8 @@ def where(condition: ArrayOrScalar,
 
     # {{{ find dtype
 
-    x_dtype = x.dtype if isinstance(x, Array) else np.dtype(type(x))
-    y_dtype = y.dtype if isinstance(y, Array) else np.dtype(type(y))
-    dtype = np.promote_types(x_dtype, y_dtype)
+    dtype = np.result_type(*[arg.dtype if isinstance(arg, Array) else arg
+                             for arg in (x, y)])
 
     # }}}
 
